@@ -164,11 +164,17 @@ def gen_layers(r, ncell, ndim, how, exact=True, nan_values=False):
                 vals = [(3 * p - ncell) / 8.0 for p in perm]
             else:
                 vals = [r.uniform(-5, 5) for _ in perm]
-            if nan_values:
+            # the dtype of the stored values: maps of integer variables (level, cpu) and single-precision outputs are ordinary uses
+            dt = r.choice(["f8", "f8", "f8", "f4", "i8", "i4"])
+            if dt in ("i8", "i4"):
+                vals = [float(p + 1) for p in perm] if li == 0 else [float(3 * p - ncell) for p in perm]
+            elif dt == "f4":
+                vals = [float(np.float32(v)) for v in vals]
+            if nan_values and dt in ("f8", "f4"):
                 for i in r.sample(range(ncell), max(1, ncell // 6)):
                     vals[i] = None
             out.append({"key": ["density", "temperature", "pressure"][li % 3] + (str(li) if li >= 3 else ""), "kind": "scalar",
-                        "unit": ["g/cm**3", "K", "erg/cm**3"][li % 3], "vals": vals})
+                        "unit": ["g/cm**3", "K", "erg/cm**3"][li % 3], "vals": vals, "dtype": dt})
         else:
             vals = []
             for p in perm:
@@ -224,6 +230,7 @@ def build_group(osy, case):
     for lay in case["layers"]:
         if lay["kind"] == "scalar":
             vals = np.array([np.nan if v is None else v for v in lay["vals"]], dtype=np.float64)
+            vals = vals.astype({"f8": np.float64, "f4": np.float32, "i8": np.int64, "i4": np.int32}[lay.get("dtype", "f8")])
             dg[lay["key"]] = osy.Array(vals, unit=lay["unit"])
         else:
             w = np.array(lay["vals"], dtype=np.float64).reshape(-1, 3)
